@@ -1,4 +1,4 @@
-import AsherahVerif.Proofs.KmsWrap
+import AsherahVerif.Proofs.KmsRoundtrip
 import AsherahVerif.Generated.Kms
 import AsherahVerif.Expected.Kms
 /-
@@ -237,7 +237,7 @@ theorem preferred_tried_first (p : Plugin) (wipe : Bool) (cloud : Cloud) (c : Cl
     · show (decryptKey p wipe cloud (c :: rest) (some e)).res = _
       rw [hres]; simp [unwrapResult, hk]
     · rw [hcalls]
-      simp [tried, List.filter_cons, he, takeThrough, hk]
+      simp [tried, he, takeThrough, hk]
 
 /-! ### wrap -/
 
@@ -300,36 +300,8 @@ theorem wrap_has_entry_for_each_success (p : Plugin) (cloud : Cloud) (sched : Li
       (∀ c ∈ clients, c.arn = kid → ⟨c.region, c.arn, o.blob⟩ ∈ env.keks) ∧
       (∀ c ∈ clients, c.arn ≠ kid → ∀ b, cloud.enc c o.key = some b → ⟨c.region, c.arn, b⟩ ∈ env.keks) ∧
       (∀ k ∈ env.keks, ∃ c ∈ clients, k.region = c.region ∧ k.arn = c.arn ∧
-        ((c.arn = kid ∧ k.blob = o.blob) ∨ (c.arn ≠ kid ∧ cloud.enc c o.key = some k.blob))) := by
-  have hb := encryptKeyBody_cases p cloud sched clients pt
-  have hr : (encryptKey p cloud sched clients pt).res = (encryptKeyBody p cloud sched clients pt).res := by
-    unfold encryptKey; simp only; split <;> rfl
-  rw [hr] at h
-  rcases hb with ⟨_, h2, _⟩ | ⟨o, hg, _, h2⟩
-  · rw [h2] at h; cases h
-  · obtain ⟨pre, g, post, hcl, hgc, hpre⟩ := generateDataKey_some hg
-    rcases h2 with ⟨_, h'⟩ | ⟨_, _, h'⟩ | ⟨hv, kid, hk, h', _⟩
-    · rw [h'] at h; cases h
-    · rw [h'] at h; split at h <;> cases h
-    · rw [h'] at h
-      have henv : env = ⟨.sealed o.key.id pt, sched (clients.filterMap (regionalKek cloud kid o))⟩ := by
-        cases h; rfl
-      have hp : env.keks.Perm (clients.filterMap (regionalKek cloud kid o)) := by rw [henv]; exact hperm _
-      refine ⟨pre, g, post, o, kid, hcl, hpre, hgc, hk, hv, by rw [henv], hp, ?_, ?_, ?_⟩
-      · intro c hc ha
-        exact hp.symm.subset (List.mem_filterMap.mpr ⟨c, hc, by simp [regionalKek, ha]⟩)
-      · intro c hc ha b hb
-        exact hp.symm.subset (List.mem_filterMap.mpr ⟨c, hc, by simp [regionalKek, ha, hb]⟩)
-      · intro k hk'
-        obtain ⟨c, hc, hck⟩ := List.mem_filterMap.mp (hp.subset hk')
-        refine ⟨c, hc, ?_⟩
-        unfold regionalKek at hck
-        by_cases ha : c.arn = kid
-        · simp only [ha, if_true, Option.some.injEq] at hck
-          subst hck; exact ⟨rfl, ha.symm ▸ rfl, Or.inl ⟨ha, rfl⟩⟩
-        · simp only [ha, if_false, Option.map_eq_some_iff] at hck
-          obtain ⟨b, hb, hkb⟩ := hck
-          subst hkb; exact ⟨rfl, rfl, Or.inr ⟨ha, hb⟩⟩
+        ((c.arn = kid ∧ k.blob = o.blob) ∨ (c.arn ≠ kid ∧ cloud.enc c o.key = some k.blob))) :=
+  encryptKey_ok_spec p cloud sched hperm clients pt env h
 
 /-- which KMS calls a wrap makes: GenerateDataKey in client order up to the first success, then one
 Encrypt for every client whose master key is not the reported KeyId. -/
@@ -435,5 +407,155 @@ theorem decrypt_unwiped_always (p : Plugin) (cloud : Cloud) (clients : List Clie
     obtain ⟨dk, _, rfl⟩ := Option.map_eq_some_iff.mp hc
     rfl
   · simp [List.filterMap_eq_nil_iff]
+
+/-! ### wrap, then unwrap — in the same plugin or in the other one -/
+
+/-- **any surviving region can unwrap, to the identical bytes** — end to end, for failure subsets.
+`A` are the clients of the wrapping plugin `pw`, `B` those of the unwrapping plugin `pu` (same plugin or the
+other one, any preferred regions, `B` may know more or fewer regions than `A`), built over the same
+region → master-key map.  `fw`: which regions fail GenerateDataKey / Encrypt at wrap time; `fu`: which
+regions fail Decrypt at unwrap time.  If the wrap succeeded, then unwrapping returns exactly the
+wrapped key if some client of `B` has an entry in the envelope and is able to decrypt, and fails (with
+"decrypt failed in all regions", never a wrong key, never a panic) otherwise. -/
+theorem wrap_then_unwrap (pw pu : Plugin) (wipe : Bool) (fw fu : Faults) (sched : List Kek → List Kek)
+    (hperm : ∀ l, (sched l).Perm l) (A B : List Client) (pt : Nat) (env : Envelope)
+    (hA : (A.map (·.region)).Nodup)
+    (hAB : ∀ a ∈ A, ∀ b ∈ B, a.region = b.region → a.arn = b.arn)
+    (hkid : ∀ c, fw.keyId c = some c.arn)
+    (hdec : ∀ c ∈ B, fu.decMode c = .ok ∨ fu.decMode c = .fail)
+    (hw : (encryptKey pw fw.cloud sched A pt).res = .ok env) :
+    let r := (decryptKey pu wipe fu.cloud B (some env)).res
+    (r = .ok pt ↔ ∃ c ∈ B, (∃ k ∈ env.keks, k.region = c.region) ∧ fu.decMode c = .ok) ∧
+    (r = .ok pt ∨ r = .err .decryptFailedAll) := by
+  intro r
+  obtain ⟨hv, henc, hnd, hkeks⟩ := honest_envelope pw fw sched hperm A pt env hkid hA hw
+  have hopen : ∀ c ∈ B, opens (lookup pu env.keks) fu.cloud env.encKey c =
+      if (∃ k ∈ env.keks, k.region = c.region) ∧ fu.decMode c = .ok then some pt else none := by
+    intro c hc
+    unfold opens
+    cases hl : lookup pu env.keks c.region with
+    | none =>
+      have hno := lookup_none hl
+      have : ¬ ∃ k ∈ env.keks, k.region = c.region := fun ⟨k, hk, hr⟩ => hno k hk hr
+      simp [this]
+    | some k =>
+      obtain ⟨hk, hr⟩ := lookup_some hl
+      obtain ⟨a, ha, h1, _, h3⟩ := hkeks k hk
+      have harn : a.arn = c.arn := hAB a ha c hc (by rw [← h1, hr])
+      have hex : ∃ k ∈ env.keks, k.region = c.region := ⟨k, hk, hr⟩
+      rcases hdec c hc with hm | hm
+      · simp [hex, hm, Faults.cloud, h3, harn, henc, aeadOpen, hv]
+      · simp [hm, Faults.cloud]
+  have hres : r = match unwrapResult (lookup pu env.keks) fu.cloud env.encKey B with
+      | some k => .ok k | none => .err .decryptFailedAll := unwrap_eq_spec pu wipe fu.cloud B env
+  cases hu : unwrapResult (lookup pu env.keks) fu.cloud env.encKey B with
+  | some k =>
+    rw [hu] at hres
+    unfold unwrapResult at hu
+    obtain ⟨c, hc, ho⟩ := List.exists_of_findSome?_eq_some hu
+    rw [hopen c hc] at ho
+    split at ho
+    · rename_i hcond
+      cases ho
+      exact ⟨⟨fun _ => ⟨c, hc, hcond⟩, fun _ => hres⟩, Or.inl hres⟩
+    · cases ho
+  | none =>
+    rw [hu] at hres
+    unfold unwrapResult at hu
+    have hnone := List.findSome?_eq_none_iff.mp hu
+    refine ⟨⟨fun h => (by rw [hres] at h; cases h), ?_⟩, Or.inr hres⟩
+    rintro ⟨c, hc, hcond⟩
+    have := hnone c hc
+    rw [hopen c hc] at this
+    simp [hcond] at this
+
+/-- **v1 ↔ v2 interoperability**: an envelope produced by either plugin unwraps in the other, under
+exactly the same condition and to the same key (instance of `wrap_then_unwrap` with `pu ≠ pw`). -/
+theorem v1_v2_interop (pw pu : Plugin) (_hne : pw ≠ pu) (wipe : Bool) (fw fu : Faults) (sched : List Kek → List Kek)
+    (hperm : ∀ l, (sched l).Perm l) (A B : List Client) (pt : Nat) (env : Envelope)
+    (hA : (A.map (·.region)).Nodup) (hAB : ∀ a ∈ A, ∀ b ∈ B, a.region = b.region → a.arn = b.arn)
+    (hkid : ∀ c, fw.keyId c = some c.arn) (hdec : ∀ c ∈ B, fu.decMode c = .ok ∨ fu.decMode c = .fail)
+    (hw : (encryptKey pw fw.cloud sched A pt).res = .ok env) :
+    ((decryptKey pu wipe fu.cloud B (some env)).res = .ok pt ↔
+      ∃ c ∈ B, (∃ k ∈ env.keks, k.region = c.region) ∧ fu.decMode c = .ok) :=
+  (wrap_then_unwrap pw pu wipe fw fu sched hperm A B pt env hA hAB hkid hdec hw).1
+
+/-- on every envelope without duplicate regions — whoever produced it, whatever the KMS answers — the
+two plugins' `DecryptKey` behave identically (result, calls, buffers); the JSON they read and write has
+the same names (`json_tags_as_modelled`) and the same text except `[]`/`null` for "no entries", which
+`encoding/json` reads alike. -/
+theorem v1_v2_same_unwrap (wipe : Bool) (cloud : Cloud) (clients : List Client) (e : Envelope)
+    (hnd : (e.keks.map (·.region)).Nodup) :
+    (decryptKey .v1 wipe cloud clients (some e)).res = (decryptKey .v2 wipe cloud clients (some e)).res ∧
+    (decryptKey .v1 wipe cloud clients (some e)).calls = (decryptKey .v2 wipe cloud clients (some e)).calls ∧
+    (decryptKey .v1 wipe cloud clients (some e)).bufs = (decryptKey .v2 wipe cloud clients (some e)).bufs := by
+  have : lookup .v1 e.keks = lookup .v2 e.keks := funext (lookup_v1_eq_v2 hnd)
+  simp [decryptKey, this]
+
+theorem v1_v2_same_json (t : Tags) (e : Envelope) (h : e.keks ≠ []) :
+    renderEnvelope .v1 t e = renderEnvelope .v2 t e := by
+  have : e.keks.isEmpty = false := by cases hk : e.keks <;> simp_all
+  simp [renderEnvelope, this]
+
+/-- … whereas a (tampered) envelope with two entries for one region separates them: v1 uses the first,
+v2 the last.  Concrete: the first entry is the right one, the second wraps another key. -/
+theorem v1_v2_differ_on_duplicate_entries :
+    let f : Faults := ⟨fun _ => false, fun _ => false, fun _ => .ok, fun c => some c.arn, ⟨1, true⟩⟩
+    let c : Client := ⟨"r0", "a0", 0⟩
+    let e : Envelope := ⟨.sealed 1 7, [⟨"r0", "a0", ⟨"a0", ⟨1, true⟩⟩⟩, ⟨"r0", "a0", ⟨"a0", ⟨2, true⟩⟩⟩]⟩
+    (decryptKey .v1 false f.cloud [c] (some e)).res = .ok 7 ∧
+    (decryptKey .v2 false f.cloud [c] (some e)).res = .err .decryptFailedAll := by
+  decide
+
+/-- a wrap can succeed with an envelope nobody can open: if GenerateDataKey reports a KeyId that is
+not the configured ARN (e.g. an alias was configured) the generator's ciphertext is not used, every
+region is re-encrypted, and when all of those calls fail the envelope has no entry.  (Outside the KMS
+contract assumed by `wrap_then_unwrap`; reported as an observation, see the engine report.) -/
+theorem wrap_can_be_empty_when_keyid_differs :
+    let f : Faults := ⟨fun _ => false, fun _ => true, fun _ => .ok, fun _ => some "alias", ⟨1, true⟩⟩
+    (encryptKey .v1 f.cloud id [⟨"r0", "a0", 0⟩, ⟨"r1", "a1", 1⟩] 7).res = .ok ⟨.sealed 1 7, []⟩ := by
+  decide
+
+/-! ### non-vacuity: concrete runs that exercise the hypotheses -/
+
+private def cA : List Client := [⟨"r0", "a0", 0⟩, ⟨"r1", "a1", 1⟩, ⟨"r2", "a2", 2⟩]
+/-- r1 cannot generate; r2 cannot encrypt -/
+private def fW : Faults :=
+  ⟨fun c => c.region == "r1", fun c => c.region == "r2", fun _ => .ok, fun c => some c.arn, ⟨5, true⟩⟩
+/-- at unwrap time r0 is down -/
+private def fU : Faults :=
+  ⟨fun _ => false, fun _ => false, fun c => if c.region == "r0" then .fail else .ok, fun c => some c.arn, ⟨0, true⟩⟩
+
+private def demoClientsV1 : List Client := match newAWSv1 "r1" cA with | .ok cs => cs | _ => []
+private def demoClientsV2 : List Client := match buildV2 "r0" cA.reverse with | .ok cs => cs | _ => []
+private def demoEnv : Envelope := match (encryptKey .v1 fW.cloud List.reverse demoClientsV1 7).res with | .ok e => e | _ => ⟨.junk, []⟩
+
+-- preferred first, others in order
+example : demoClientsV1.map (·.region) = ["r1", "r0", "r2"] ∧ demoClientsV2.map (·.region) = ["r0", "r2", "r1"] := by decide
+-- r1 (preferred) fails to generate, r0 generates; r2's Encrypt fails: entries for r0 and r1 only; data key wiped
+example : (encryptKey .v1 fW.cloud List.reverse demoClientsV1 7).calls.map (fun | .gen c => "gen:" ++ c.region | .enc c => "enc:" ++ c.region | .dec c => "dec:" ++ c.region)
+      = ["gen:r1", "gen:r0", "enc:r1", "enc:r2"] ∧
+    demoEnv.keks.map (·.region) = ["r0", "r1"] ∧
+    (encryptKey .v1 fW.cloud List.reverse demoClientsV1 7).bufs = [⟨⟨5, true⟩, true⟩] := by decide
+-- v2 with preferred r0 (down) falls back to r1 and returns the wrapped key; r2 has no entry and is skipped
+example : (decryptKey .v2 false fU.cloud demoClientsV2 (some demoEnv)).res = .ok 7 ∧
+    (decryptKey .v2 false fU.cloud demoClientsV2 (some demoEnv)).calls = [.dec ⟨"r0", "a0", 0⟩, .dec ⟨"r1", "a1", 1⟩] ∧
+    (decryptKey .v2 false fU.cloud demoClientsV2 (some demoEnv)).bufs = [⟨⟨5, true⟩, false⟩] ∧
+    (decryptKey .v2 true fU.cloud demoClientsV2 (some demoEnv)).bufs = [⟨⟨5, true⟩, true⟩] := by decide
+-- the hypotheses of `wrap_then_unwrap` are satisfiable together (this very run)
+example : (cA.map (·.region)).Nodup ∧ (∀ c, fW.keyId c = some c.arn) ∧
+    (∀ c ∈ demoClientsV2, fU.decMode c = .ok ∨ fU.decMode c = .fail) ∧
+    (encryptKey .v1 fW.cloud List.reverse demoClientsV1 7).res = .ok demoEnv := by
+  refine ⟨by decide, fun _ => rfl, by decide, by decide⟩
+-- everything down at unwrap time: error, every region with an entry was tried in order
+example : (decryptKey .v1 false (⟨fun _ => false, fun _ => false, fun _ => .fail, fun c => some c.arn, ⟨0, true⟩⟩ : Faults).cloud
+      demoClientsV1 (some demoEnv)).res = .err .decryptFailedAll := by decide
+-- nil KeyId: v1 panics (and still wipes), v2 dies
+example : let f : Faults := ⟨fun _ => false, fun _ => false, fun _ => .ok, fun _ => none, ⟨1, true⟩⟩
+    (encryptKey .v1 f.cloud id cA 7).res = .panic ∧ (encryptKey .v1 f.cloud id cA 7).bufs = [⟨⟨1, true⟩, true⟩] ∧
+    (encryptKey .v2 f.cloud id cA 7).res = .fatal := by decide
+-- malformed data key: AEAD error after the plaintext exists, buffer wiped
+example : let f : Faults := ⟨fun _ => false, fun _ => false, fun _ => .ok, fun c => some c.arn, ⟨1, false⟩⟩
+    (encryptKey .v2 f.cloud id cA 7).res = .err .aead ∧ (encryptKey .v2 f.cloud id cA 7).bufs = [⟨⟨1, false⟩, true⟩] := by decide
 
 end AsherahVerif.Props.C17
